@@ -273,7 +273,55 @@ def require_mc_fails(ctx, res, what, prop):
 GOENV = {"GOFLAGS": "-mod=mod", "GOPROXY": "off"}
 
 
-def run_go(ctx, pkg, run, env=None, timeout=900, tags="verif", count=1, extra=(), name=None, cpu=None):
+class _Done:
+    pass
+
+
+def _run_watched(cmd, env, timeout, watch, stall, logf):
+    """Run cmd (own process group) with a wall timeout; if `watch` names a file, stop the run when the file has not
+    grown for `stall` seconds while the process is still alive."""
+    import signal
+    r = _Done()
+    r.stalled = False
+    with open(logf, "w") as lf:
+        pr = subprocess.Popen(cmd, cwd=HARNESS, env=env, stdout=lf, stderr=subprocess.STDOUT, start_new_session=True)
+        t0 = time.time()
+        last_size, last_change = -1, time.time()
+        while True:
+            try:
+                pr.wait(timeout=3)
+                break
+            except subprocess.TimeoutExpired:
+                pass
+            now = time.time()
+            if watch:
+                try:
+                    sz = os.path.getsize(watch)
+                except OSError:
+                    sz = -1          # still building
+                    last_change = now if now - t0 < 900 else last_change
+                if sz != last_size:
+                    last_size, last_change = sz, now
+                elif sz >= 0 and now - last_change > stall:
+                    r.stalled = True
+            if r.stalled or now - t0 > timeout + 30:
+                for sig, wait in ((signal.SIGQUIT, 8), (signal.SIGKILL, 5)):
+                    try:
+                        os.killpg(pr.pid, sig)
+                    except ProcessLookupError:
+                        break
+                    try:
+                        pr.wait(timeout=wait)
+                        break
+                    except subprocess.TimeoutExpired:
+                        continue
+                break
+    r.returncode = pr.returncode if pr.returncode is not None else -9
+    r.stdout = open(logf, errors="replace").read()
+    return r
+
+
+def run_go(ctx, pkg, run, env=None, timeout=900, tags="verif", count=1, extra=(), name=None, cpu=None, stall=240):
     e = dict(os.environ)
     e.update(GOENV)
     e.pop("GOSUMDB", None)
@@ -305,11 +353,19 @@ def run_go(ctx, pkg, run, env=None, timeout=900, tags="verif", count=1, extra=()
     cmd = ["go", "test"] + modargs + ["-tags", tags, "-count", str(count), "-vet=off", "-timeout", "%ds" % timeout,
            "-run", run] + list(extra) + [pkg]
     t0 = time.time()
-    p = subprocess.run(["timeout", str(timeout + 30)] + cmd, cwd=HARNESS, env=e, stdout=subprocess.PIPE,
-                       stderr=subprocess.STDOUT, text=True, errors="replace")
     logf = os.path.join(ctx.work, "go-%s.log" % (name or re.sub(r"\W+", "_", run)))
-    with open(logf, "w") as f:
-        f.write(p.stdout)
+    watch = e.get("VERIF_OUT") if stall is not None else None
+    p = None
+    for attempt in (1, 2):
+        p = _run_watched(cmd, e, timeout, watch, stall, logf if attempt == 1 else logf + ".retry")
+        if not p.stalled:
+            break
+        # a wedged driver (no output growth for `stall` seconds: seen a few times in ~10^6 replays with synctest +
+        # simnet, with the bubble's clock stuck) says nothing about the library: stop it (SIGQUIT leaves a goroutine
+        # dump in the log) and replay the stage once more from scratch; a second stall is inconclusive.
+        ctx.notes.append("driver %s %s stalled (no output for %d s); %s" % (pkg, run, stall, "replayed" if attempt == 1 else "gave up"))
+        if attempt == 2:
+            raise Inconclusive("driver %s %s stalled twice (no output growth for %d s), see %s" % (pkg, run, stall, logf))
     res = {"rc": p.returncode, "out": p.stdout, "wall": time.time() - t0, "log": logf}
     if "[build failed]" in p.stdout or "cannot find package" in p.stdout or re.search(r"^# ", p.stdout, re.M) and "FAIL" in p.stdout and "--- FAIL" not in p.stdout and "panic:" not in p.stdout:
         raise Inconclusive("go build of %s failed (hooks no longer fit the tree?) see %s" % (pkg, logf))
